@@ -135,8 +135,15 @@ func verifC20_stuck() {
 		t.closeErr = vErrForeign
 	}
 	c := vNewConn(t, client, nil, 32, 64)
-	c.CloseRead(vBG)
+	crCtx, crCancel := context.WithCancel(vBG)
+	c.CloseRead(crCtx)
 	vGhostSettle() // the CloseRead goroutine has met the data message and is blocked writing its Close frame
+	if vChoose("parentCancelledFirst", 2) == 1 {
+		// the context CloseRead was given ends before the connection is closed: the reader goroutine is still there
+		crCancel()
+		vGhostSettle()
+	}
+	defer crCancel()
 	if vChoose("waitForWriteTimeout", 2) == 1 {
 		time.Sleep(6 * time.Second) // the 5 s write timeout closes the connection first
 	}
